@@ -1,0 +1,214 @@
+//! Verification hooks (compiled only with `--cfg kmertools_verif`).
+//!
+//! * an event log shared by all instrumented loops,
+//! * a serialising scheduler: every instrumented worker parks at `sched_point`; when all live
+//!   workers are parked one of them is released according to a schedule (list of choices),
+//!   so that a run is reproducible and all interleavings at hook granularity can be enumerated,
+//! * a log of every write issued through `MMWriter::write_at`.
+//!
+//! With no controller installed every function returns at once.
+use std::cell::Cell;
+use std::sync::{Condvar, Mutex};
+use std::time::{Duration, Instant};
+
+#[derive(Clone, Copy, PartialEq, Eq, Debug)]
+pub enum Mode {
+    /// log only, workers run freely
+    Free,
+    /// log only, workers yield / sleep pseudo-randomly at every hook
+    Jitter,
+    /// serialise workers at hook granularity following `choices`
+    Serial,
+}
+
+#[derive(Debug)]
+pub struct Ctl {
+    pub mode: Mode,
+    /// workers that are still alive in the current parallel section
+    pub expected: usize,
+    pub parked: Vec<usize>,
+    pub granted: Option<usize>,
+    pub next_ticket: usize,
+    /// schedule: index into the sorted list of parked workers; beyond its end `fallback` is used
+    pub choices: Vec<usize>,
+    /// 0 = always the lowest ticket, otherwise seed of an LCG that picks pseudo-randomly
+    pub fallback_seed: u64,
+    pub step: usize,
+    pub log: Vec<String>,
+    /// number of options at each decision (for enumeration of schedules)
+    pub branching: Vec<usize>,
+    /// (pos, len, capacity) of every `write_at`
+    pub writes: Vec<(usize, usize, usize)>,
+    /// set when the scheduler gave up (a worker did not arrive in time)
+    pub uncontrolled: bool,
+    rng: u64,
+}
+
+static CTL: Mutex<Option<Ctl>> = Mutex::new(None);
+static CV: Condvar = Condvar::new();
+
+thread_local! {
+    static TICKET: Cell<Option<usize>> = const { Cell::new(None) };
+}
+
+fn lock() -> std::sync::MutexGuard<'static, Option<Ctl>> {
+    CTL.lock().unwrap_or_else(|e| e.into_inner())
+}
+
+pub fn install(mode: Mode, choices: Vec<usize>, fallback_seed: u64) {
+    *lock() = Some(Ctl {
+        mode,
+        expected: 0,
+        parked: Vec::new(),
+        granted: None,
+        next_ticket: 0,
+        choices,
+        fallback_seed,
+        step: 0,
+        log: Vec::new(),
+        branching: Vec::new(),
+        writes: Vec::new(),
+        uncontrolled: false,
+        rng: fallback_seed | 1,
+    });
+}
+
+pub fn uninstall() -> Option<Ctl> {
+    let r = lock().take();
+    CV.notify_all();
+    r
+}
+
+fn next_rand(c: &mut Ctl) -> u64 {
+    c.rng = c
+        .rng
+        .wrapping_mul(6364136223846793005)
+        .wrapping_add(1442695040888963407);
+    c.rng >> 33
+}
+
+fn decide(c: &mut Ctl) {
+    if c.granted.is_none() && c.expected > 0 && c.parked.len() == c.expected {
+        c.parked.sort();
+        let n = c.parked.len();
+        let ch = match c.choices.get(c.step) {
+            Some(&x) => x % n,
+            None => {
+                if c.fallback_seed == 0 {
+                    0
+                } else {
+                    (next_rand(c) as usize) % n
+                }
+            }
+        };
+        c.branching.push(n);
+        c.step += 1;
+        c.granted = Some(c.parked.remove(ch));
+    }
+}
+
+fn ticket(c: &mut Ctl) -> usize {
+    TICKET.with(|t| {
+        if t.get().is_none() {
+            t.set(Some(c.next_ticket));
+            c.next_ticket += 1;
+        }
+        t.get().unwrap()
+    })
+}
+
+/// A parallel section with `workers` instrumented workers begins (call before spawning).
+pub fn section_begin(tag: &str, workers: usize) {
+    let mut g = lock();
+    let Some(c) = g.as_mut() else { return };
+    c.expected = workers;
+    c.parked.clear();
+    c.granted = None;
+    c.next_ticket = 0;
+    c.log.push(format!("begin {} {}", tag, workers));
+}
+
+/// Worker-side hook: park until released (Serial), then log `tag w<ticket> <n>`.
+pub fn sched_point(tag: &str, n: i64) {
+    let mut g = lock();
+    let Some(c) = g.as_mut() else { return };
+    let t = ticket(c);
+    match c.mode {
+        Mode::Free => {
+            c.log.push(format!("{} {} {}", tag, t, n));
+        }
+        Mode::Jitter => {
+            let r = next_rand(c);
+            c.log.push(format!("{} {} {}", tag, t, n));
+            drop(g);
+            match r % 4 {
+                0 => std::thread::yield_now(),
+                1 => std::thread::sleep(Duration::from_micros(r % 200)),
+                _ => {}
+            }
+        }
+        Mode::Serial => {
+            if c.uncontrolled {
+                c.log.push(format!("{} {} {}", tag, t, n));
+                return;
+            }
+            c.parked.push(t);
+            decide(c);
+            CV.notify_all();
+            let t0 = Instant::now();
+            loop {
+                let Some(c) = g.as_mut() else { return };
+                if c.uncontrolled {
+                    return;
+                }
+                if c.granted == Some(t) {
+                    c.granted = None;
+                    c.log.push(format!("{} {} {}", tag, t, n));
+                    return;
+                }
+                if t0.elapsed() > Duration::from_secs(20) {
+                    c.uncontrolled = true;
+                    c.log.push("uncontrolled".to_string());
+                    CV.notify_all();
+                    return;
+                }
+                let (g2, _) = CV
+                    .wait_timeout(g, Duration::from_millis(500))
+                    .unwrap_or_else(|e| e.into_inner());
+                g = g2;
+            }
+        }
+    }
+}
+
+/// Log an event of the calling worker without a scheduling decision.
+pub fn note(tag: &str, n: i64) {
+    let mut g = lock();
+    let Some(c) = g.as_mut() else { return };
+    let t = ticket(c);
+    c.log.push(format!("{} {} {}", tag, t, n));
+}
+
+/// The calling worker leaves its loop.
+pub fn worker_exit() {
+    let mut g = lock();
+    let Some(c) = g.as_mut() else { return };
+    let t = TICKET.with(|t| t.take());
+    c.log.push(format!("exit {} 0", t.map(|x| x as i64).unwrap_or(-1)));
+    if c.mode == Mode::Serial && c.expected > 0 {
+        c.expected -= 1;
+        decide(c);
+        CV.notify_all();
+    }
+}
+
+/// Called by `MMWriter::write_at`; returns false when the write would leave the slice
+/// (the caller then skips it, so that the harness survives to report it).
+pub fn log_write(pos: usize, len: usize, capacity: usize) -> bool {
+    let mut g = lock();
+    if let Some(c) = g.as_mut() {
+        c.writes.push((pos, len, capacity));
+        c.log.push(format!("mmwrite {} {} {}", pos, len, capacity));
+    }
+    pos.checked_add(len).map(|e| e <= capacity).unwrap_or(false)
+}
